@@ -70,7 +70,7 @@ theorem order_processSig : Facts.order_Conversation_processSig = ["deserialize",
 theorem order_verifyInstanceTags : Facts.order_otrV3_verifyInstanceTags = ["malformedMessage", "malformedMessage", "messageEvent"] := by decide
 theorem order_akeHasFinished : Facts.order_Conversation_akeHasFinished = ["macKeysToReveal", "wipe", "append", "wipe", "Now", "signalSecurityEventIf", "signalSecurityEventIf", "PublicKey", "IsSame", "messageEvent", "generateNewDHKeyPair"] := by decide
 theorem order_genDataMsgWithFlag : Facts.order_Conversation_genDataMsgWithFlag = ["calculateDHSessionKeys", "findCounterFor", "PutUint64", "encrypt", "messageHeader", "revealMACKeys", "sign", "updateMayRetransmitTo", "len", "last", "unlock"] := by decide
-theorem order_receiveDecoded : Facts.order_Conversation_receiveDecoded = ["checkVersion", "parseMessageHeader", "receiveDataMessage", "receiveAKEMessage"] := by decide
+theorem order_receiveDecoded : Facts.order_Conversation_receiveDecoded = ["checkVersion", "parseMessageHeader", "receiveDataMessage", "authStateIdentity", "receiveAKEMessage", "len", "authStateIdentity"] := by decide
 theorem order_rotateOurKeys : Facts.order_keyManagementContext_rotateOurKeys = ["randSizedSecret", "revealMACKeysForOurPreviousKeyID", "forgetCountersForOurKey", "installNewDHKeyPair"] := by decide
 theorem order_rotateTheirKey : Facts.order_keyManagementContext_rotateTheirKey = ["revealMACKeysForTheirPreviousKeyID", "forgetCountersForTheirKey"] := by decide
 theorem order_deriveDHSessionKeys : Facts.order_keyManagementContext_deriveDHSessionKeys = ["pickOurKeys", "pickTheirKey", "newOtrConflictError", "calculateDHSessionKeys"] := by decide
@@ -80,10 +80,10 @@ theorem order_receiveUnit : Facts.order_Conversation_receiveUnit = ["makeCopy", 
 
 /-! who writes the fields the lifecycle / isolation properties are about -/
 theorem writers_msgState : Facts.writers_msgState = ["Conversation.End", "Conversation.akeHasFinished", "Conversation.processDisconnectedTLV"] := by decide
-theorem writers_theirInstanceTag : Facts.writers_theirInstanceTag = ["Conversation.receiveUnit", "otrV3.verifyInstanceTags"] := by decide
+theorem writers_theirInstanceTag : Facts.writers_theirInstanceTag = ["Conversation.receiveDecoded", "Conversation.receiveFragment", "Conversation.receiveUnit", "otrV3.verifyInstanceTags"] := by decide
 theorem writers_ourInstanceTag : Facts.writers_ourInstanceTag = ["Conversation.InitializeInstanceTag", "Conversation.generateInstanceTag"] := by decide
-theorem writers_version : Facts.writers_version = ["Conversation.commitToVersionFrom"] := by decide
-theorem writers_theirKey : Facts.writers_theirKey = ["Conversation.parseTheirKey", "Conversation.processEncryptedSig"] := by decide
+theorem writers_version : Facts.writers_version = ["Conversation.commitToVersionFrom", "Conversation.receiveDecoded", "Conversation.receiveFragment"] := by decide
+theorem writers_theirKey : Facts.writers_theirKey = ["Conversation.parseTheirKey", "Conversation.processEncryptedSig", "authStateAwaitingRevealSig.receiveRevealSigMessage"] := by decide
 theorem writers_ssid : Facts.writers_ssid = ["Conversation.akeHasFinished", "Conversation.calcAKEKeys"] := by decide
 theorem writers_sentRevealSig : Facts.writers_sentRevealSig = ["Conversation.akeHasFinished", "ake.wipe", "authStateAwaitingDHKey.receiveDHKeyMessage", "authStateAwaitingRevealSig.receiveRevealSigMessage"] := by decide
 theorem writers_whitespaceState : Facts.writers_whitespaceState = ["Conversation.appendWhitespaceTag", "Conversation.checkPlaintextPolicies"] := by decide
